@@ -444,6 +444,62 @@ def run_vectors(S, prop):
             S.violation(prop + ".vector", "%s.vector/project-vector-mismatch/%s:%s" % (prop, schema, tname), {"text": text, "struct": sname, "value": value, "bytes": data}, expected={"enc": data, "dec": value}, actual=det)
 
 
+# element types that occupy no bits: a count prefix alone would then announce any number of elements
+ZERO_WIDTH = [
+    ("dyn-of-empty-array", "struct S { a @0: [[u8, 0]], }"),
+    ("dyn-of-u0", "struct S { a @0: [u0], }"),
+    ("dyn-of-i0", "struct S { a @0: [i00], }"),
+    ("dyn-of-negative-array", "struct S { a @0: [[u8, -1]], }"),
+    ("dyn-of-fractional-array", "struct S { a @0: [[u8, 0.9]], }"),
+    ("dyn-of-empty-struct", "struct Mark { pad @0: [u16, 0], }\nstruct S { a @0: [Mark], }"),
+    ("dyn-of-array-of-empty", "struct S { p @0: u3, a @1: [[[i7, 0], 3]], }"),
+    ("dyn-of-dyn-of-u0", "struct S { a @0: [[u0]], }"),
+]
+
+
+def zero_width_worker(chunk):
+    """Schemas whose dynamic-array element type has no bits: the front end must refuse them, or the decoder
+    must still do work bounded by the input when only a count prefix is present."""
+    from fcp.parser import get_fcp_from_string
+    from fcp import serde
+    from fcp.error import Logger
+
+    S = Stats()
+    for label, body in chunk:
+        text = 'version: "3"\n' + body + "\n"
+        S.count("states")
+        S.count("transitions")
+        try:
+            res = get_fcp_from_string(text, Logger({}))
+        except Exception:  # noqa  (C11's subject)
+            S.add("outcomes", "zero-width:front-end-raises")
+            continue
+        if not res.is_ok():
+            S.add("outcomes", "zero-width:refused-by-front-end")
+            continue
+        fcp = res.unwrap()
+        S.add("nontrivial", label)
+        lead = b"\x00" if "p @0" in body else b""
+        for count in (4096, 200000, 2**32 - 1):
+            data = lead + (count << (3 if lead else 0)).to_bytes(5 if lead else 4, "little")
+            S.count("executions")
+            budget = 64 * 8 * len(data) + 2000
+            _limit_address_space()
+            try:
+                got, _n = _count_calls(lambda: serde.decode(fcp, "S", bytearray(data)), budget)
+                S.add("outcomes", "zero-width:returned")
+                S.violation("C16.truncated", "C16.truncated/returned-value/count/zero-width-element", {"text": text, "struct": "S", "bytes": data, "op": "count=%d, no data" % count}, expected="decoding error", actual=common.jsonable(got) if count < 10000 else "%d fabricated elements" % count)
+            except Budget:
+                S.add("outcomes", "zero-width:budget")
+                S.violation("C16.budget", "C16.budget/step-budget-exceeded/count/zero-width-element", {"text": text, "struct": "S", "bytes": data, "op": "count=%d, no data" % count}, expected="work bounded by input: <= %d calls" % budget, actual="aborted after %d calls" % budget)
+            except MemoryError:
+                S.add("outcomes", "zero-width:memory")
+                S.violation("C16.budget", "C16.budget/memory-grows-with-announced-length/zero-width-element", {"text": text, "struct": "S", "bytes": data, "op": "count=%d, no data" % count}, expected="bounded by input", actual="MemoryError")
+            except Exception as e:  # noqa
+                S.add("outcomes", "zero-width:raised:" + type(e).__name__)
+    return S
+
+
 def run(prop, tier):
     common.bind_repo()
     r = Run(prop, tier)
@@ -463,6 +519,10 @@ def run(prop, tier):
     r.stats.c["transitions"] += transitions
     if prop in ("C01", "C02"):
         run_vectors(r.stats, prop)
+    if prop == "C16":
+        for s in pmap(zero_width_worker, [[z] for z in ZERO_WIDTH]):
+            r.stats.merge(s)
+        r.bounds["zero_width_element_schemas"] = len(ZERO_WIDTH)
     r.rule = (
         "states = distinct (alignment context, type tree) struct shapes reached by BFS over the productions "
         "{leaf, Arr n=1..3, Dyn, Opt, nested struct 1|2 fields, pad offset p, tail on/off, field sequence}; "
